@@ -8,7 +8,7 @@ def emit(ctx, rep, dialect, profile, maxstmts):
     p = os.path.join(ctx.scratch, "doc_%s_%s.cfg" % (dialect, profile))
     with open(p, "w") as f:
         f.write('SPECIFICATION Spec\nCONSTANT Dialect = "%s"\nCONSTANT MaxStmts = %d\nCONSTANT Profile = "%s"\nCONSTANT Emit = TRUE\n'
-                'INVARIANT RefReadsGenerated\nINVARIANT EmitCase\nCHECK_DEADLOCK FALSE\n' % (dialect, maxstmts, profile))
+                'INVARIANT RefReadsGenerated\nINVARIANT RetagChangesNothingElse\nINVARIANT EmitCase\nCHECK_DEADLOCK FALSE\n' % (dialect, maxstmts, profile))
     r = tlc.run("MC_Doc", p, workers=16, scratch=ctx.scratch, xss="64m", timeout=7000, heap="12g")
     if r.violation:
         raise RuntimeError("reference loader and generator disagree on the model (spec error): " + r.violation + r.raw[-2500:])
